@@ -238,7 +238,7 @@ def gen_chi_ramp(rng):
     L = case['L']
     full = 2 ** (L // 2)
     K = rng.choice([4, 5, 6, 7, 8, 9, 10, 12])
-    cl = {'0': rng.choice([2, 2, 2, 3, 4])}      # (not 1: DensityMatrixMixer + explicit_plus_hc at chi_max = 1 projects theta to zero, ZeroDivisionError)
+    cl = {'0': rng.choice([2, 2, 2, 3, 4])}      # (ramps that start from chi_max = 1: gen_chi_one, drawn after all other strata)
     if rng.random() < 0.5:
         k1 = rng.randrange(1, K)
         cl[str(k1)] = rng.choice([2, 3, 4, 6, 8])
@@ -304,7 +304,8 @@ def gen_inf_hc(rng, k):
     on the same Hamiltonian built without explicit_plus_hc (same state space, same options): both runs must report <psi|H|psi>
     of their state and agree with each other and with the closed-form energy."""
     engine = ['vumps1', 'vumps2', 'two', 'single'][k % 4]
-    # (the one-site engines on the gapped chain only: one-site iDMRG on the critical Heisenberg chain is far from converged after 30 sweeps)
+    # (the one-site engines on the gapped chain only: one-site iDMRG on the critical Heisenberg chain is far from converged after 30 sweeps -
+    # it stops at max_sweeps, the engine does not declare convergence; see the assumption recorded in main)
     name = rng.choice(['tfi', 'xxz']) if engine in ('vumps2', 'two') else 'tfi'
     L = rng.choice([2, 2, 3, 4]) if name == 'tfi' else rng.choice([2, 2, 4])
     if name == 'tfi':
@@ -336,6 +337,46 @@ def gen_inf_hc(rng, k):
         opts['combine'] = False
     return {'model': model, 'L': L, 'bc': 'infinite', 'engine': engine, 'init': [names[i] for i in idx], 'init_idx': idx, 'options': opts,
             'trace': False, 'init_chi': 8 if engine in ('vumps1', 'single') else None, 'compare_without_hc': True, 'stream': 'dmrg-infinite-plus-hc'}
+
+
+def gen_chi_one(rng, k):
+    """'chi lists': bond dimension 1 (product-state ansatz) - as the first entry of a chi_list ramp that ends at the full bond dimension
+    (k even; the exact clause applies as in gen_chi_ramp), or as chi_max / chi_list[0] of an arbitrary run (k odd).  With chi_max = 1 every
+    truncation cuts through the Schmidt spectrum, in particular through exactly degenerate Schmidt values (singlets)."""
+    if k % 2 == 0:
+        case = gen_chi_ramp(rng)
+        case['options']['chi_list']['0'] = 1
+    else:
+        case = gen_case(rng)
+        opts = case['options']
+        if 'chi_list' in opts:
+            opts['chi_list']['0'] = 1
+        else:
+            opts['trunc_params']['chi_max'] = 1
+        if opts['diag_method'] == 'arpack':
+            opts['diag_method'] = 'lanczos'
+    case['stream'] = 'dmrg-finite-chi1'
+    return case
+
+
+def gen_inf_noenv(rng):
+    """'sweep counts': infinite DMRG without environment sweeps (N_sweeps_check = 1, so that update_env = N_sweeps_check // 2 = 0, or
+    update_env = 0 given explicitly), both engines, every mixer, unit cells of 2-4 sites, gapped transverse-field Ising chain.  The state
+    at the end of the last optimisation sweep is then only approximately canonical and post_run_cleanup canonicalises it
+    (MPS.canonical_form); the runner records <H>/site before and after that call."""
+    engine = rng.choice(['two', 'single', 'single'])
+    L = rng.choice([2, 3, 4, 4])
+    mixer = rng.choice([True, 'DensityMatrixMixer', 'SubspaceExpansion'])
+    # (no Z_2 charge for the one-site engine with the DensityMatrixMixer: see T13_charge_one_site_dm_mixer_refuted)
+    cons = 'None' if (engine == 'single' and mixer == 'DensityMatrixMixer') else rng.choice(['None', 'None', 'parity'])
+    model = {'name': 'tfi', 'J': 1.0, 'g': rng.choice([0.5, 1.5, 2.0]), 'conserve': cons}
+    opts = {'trunc_params': {'chi_max': rng.choice([8, 16, 16]), 'svd_min': 1e-10}, 'max_sweeps': 30, 'N_sweeps_check': 1, 'max_E_err': 1e-10,
+            'mixer': mixer, 'mixer_params': {'amplitude': 1e-3, 'decay': 2.0, 'disable_after': 8}}
+    if rng.random() < 0.25:
+        opts['N_sweeps_check'] = 2
+        opts['update_env'] = 0
+    return {'model': model, 'L': L, 'bc': 'infinite', 'engine': engine, 'init': ['up'] * L, 'init_idx': [0] * L, 'options': opts,
+            'trace': False, 'init_chi': None, 'stream': 'dmrg-infinite-no-env-sweeps'}
 
 
 def gen_inf_trace(rng):
@@ -505,6 +546,8 @@ def main(ctx):
     # (new strata are drawn after all the others so that the cases of the older streams stay the same for a given seed)
     cases += [gen_chi_ramp(rng) for _ in range(ctx.pick(20, 200) * mult)]
     cases += [gen_inf_hc(rng, k) for k in range(ctx.pick(8, 48))]
+    cases += [gen_chi_one(rng, k) for k in range(ctx.pick(16, 120) * mult)]
+    cases += [gen_inf_noenv(rng) for _ in range(ctx.pick(12, 60))]
     for c in common.corpus_cases('C13'):
         cases.append(c['case'])
     results = run_chunks(ctx, cases)
@@ -531,6 +574,9 @@ def main(ctx):
             elif case['options'].get('diag_method') == 'arpack' and r['error'].startswith('AssertionError') and 'in npc_to_flat' in tb \
                     and 'assert len(npc_vec._data) == 1' in tb:
                 key = 'C13:diag_method=arpack:FlatLinearOperator.npc_to_flat:zero-vector-AssertionError'
+            elif r['error'].startswith('ZeroDivisionError') and 'in svd_from_rho' in tb and 'theta /= theta.norm()' in tb:
+                # DensityMatrixMixer: U and VH truncated independently of each other to chi_max states; U^H theta V = 0
+                key = 'C13:DensityMatrixMixer.svd_from_rho:projected-theta-zero:ZeroDivisionError'
             ctx.count(stream, [case['model'], case['L'], case['engine'], case['init_idx'], case['options']], nontrivial=True)
             ctx.fail('oracle', 'engine raised %s' % r['error'], {'stream': stream, 'case': case, 'tb': tb}, match_key=key)
             continue
@@ -690,14 +736,29 @@ def main(ctx):
             if r['norm_test'] > 1e-6:
                 probs.append('infinite: returned state not canonical: norm_test = %.3e' % r['norm_test'])
             nsc = opts.get('N_sweeps_check', 10)
+            cn = r.get('canon') or {}
+            hist['inf_canonical_form_called'] = hist.get('inf_canonical_form_called', 0) + bool(cn)
+            # a run that stopped at max_sweeps without the engine declaring convergence: the E returned by an infinite run is the energy
+            # gained per added site in the last iteration, which equals <H>/site of the state only at the fixed point.  Only in the stream
+            # without environment sweeps; all other infinite streams require agreement in any case.
+            converged = not (stream == 'dmrg-infinite-no-env-sweeps' and r['sweeps'] > opts.get('max_sweeps', 1000))
+            hist['inf_not_converged_at_max_sweeps'] = hist.get('inf_not_converged_at_max_sweeps', 0) + (not converged)
             if case['engine'] == 'single' and (nsc // 2) % 2 == 1 and abs(r['E'] / r['E_mpo'] - 1.5) < 1e-3 and r['E_mpo'] >= e_exact - 1e-7 \
                     and abs(r['E_mpo'] - e_exact) < 5e-3:
                 ctx.fail('oracle', 'infinite SingleSiteDMRGEngine with an odd number of environment sweeps per iteration (update_env = %d): '
                          'run() reports E = %.10g = 1.5 x the energy per site %.10g of the returned state' % (nsc // 2, r['E'], r['E_mpo']),
                          {'stream': stream, 'case': case}, match_key='C13:SingleSiteDMRGEngine:infinite:odd-update_env:E-per-site-x1.5')
+            elif cn.get('E_before') is not None and abs(r['E_mpo'] - cn['E_before']) > 1e-5 and abs(cn['E_before'] - r['E']) < 5e-3:
+                # the state at the end of the last sweep has the reported energy; the state returned after the engine's own
+                # post_run_cleanup -> _canonicalize -> psi.canonical_form() does not
+                ctx.fail('oracle', 'infinite %s DMRG (update_env = %s): post_run_cleanup calls psi.canonical_form() on the final state (norm error %.1e); '
+                         '<H>/site is %.10g before and %.10g after that call, run() reports E = %.10g (exact %.10g)'
+                         % (case['engine'] + '-site', opts.get('update_env', nsc // 2), cn.get('norm_err_before') or 0.0, cn['E_before'], r['E_mpo'], r['E'], e_exact),
+                         {'stream': stream, 'case': case, 'impl': {k: r.get(k) for k in ('E', 'E_mpo', 'sweeps', 'chi', 'canon')}},
+                         match_key='C13:DMRGEngine._canonicalize:infinite:canonical_form-changes-energy')
             elif min(r['E'], r['E_mpo']) < e_exact - 1e-7:
                 probs.append('infinite: energy per site %.10g / %.10g below the exact value %.10g' % (r['E'], r['E_mpo'], e_exact))
-            elif abs(r['E_mpo'] - e_exact) > 5e-3 or abs(r['E'] - r['E_mpo']) > 1e-4:
+            elif abs(r['E_mpo'] - e_exact) > 5e-3 or (abs(r['E'] - r['E_mpo']) > 1e-4 and converged):
                 probs.append('infinite: E = %.10g, <H>/site = %.10g, exact %.10g' % (r['E'], r['E_mpo'], e_exact))
             if case.get('compare_without_hc'):
                 ref = r.get('ref') or {}
@@ -764,6 +825,13 @@ def main(ctx):
         'truncation and the eigensolver are not modelled; energy/convergence/canonical-form clauses are oracle-only (exact diagonalisation)',
         'C13 oracle: dense Hamiltonians are built in harness/c13.py from the documented formulas of TFIChain, XXZChain, FermionChain and a '
         'CouplingMPOModel with longer-range complex couplings defined in the runner; infinite chains are compared with closed-form energies',
+        'C13 generators, infinite chains: the one-site engines are run on the gapped transverse-field Ising chain only.  One-site iDMRG on the '
+        'critical Heisenberg chain (chi 16, <= 30 sweeps) stops at max_sweeps without the engine declaring convergence (Delta_E ~ 1e-7 .. 1e-5 per '
+        'sweep, Delta_S ~ 1e-3); its E (energy gained per added site in the last iteration) and <H>/site of the returned state then differ by '
+        '1e-6 .. 2.5e-4 and agree to 1e-9 once the run is allowed to converge (200 sweeps): slow convergence at criticality, not a statement of '
+        'the property about a converged result.  For the same reason the stream dmrg-infinite-no-env-sweeps compares E with <H>/site only for runs '
+        'that stopped as converged (all other clauses - normalisation, canonical form, <H>/site >= exact and within 5e-3 of it, and that the '
+        'canonicalisation of post_run_cleanup does not change <H>/site - apply to every run)',
     ]
     return ctx.finish(RULE, 'T13_schedule_covers for all L, n, bc; environment freshness proved for L <= 24 (partial) and observed on every instrumented run; '
                       'spectral clauses by exact diagonalisation')
@@ -777,4 +845,4 @@ RULE = ('finite chains of 3-8 sites: TFI, XXZ, spinless fermions, longer-range s
         'engine\'s own E_trunc is not used as slack) and E >= E0(sector) without slack; chi_list ramps {0: 2-4, .., K: >= full bond dimension} '
         'x N_sweeps_check 1-3 x default/explicit min_sweeps x chi_list_reactivates_mixer: run protocol (chi_max and mixer per sweep, stop) vs '
         'Model/SweepStop.v and exact ground state when the last entry does not truncate; infinite: iDMRG and VUMPS (single/two-site) on TFI and '
-        'Heisenberg vs closed-form energies, unit cells 2-4, every engine also with explicit_plus_hc=True vs the same run without it.  distinct = distinct (model, L, engine, initial state, options).')
+        'Heisenberg vs closed-form energies, unit cells 2-4, every engine also with explicit_plus_hc=True vs the same run without it; chi_max = 1 (as chi_max, chi_list[0], and as the start of a ramp to the full bond dimension) for every engine / mixer; iDMRG without environment sweeps (N_sweeps_check = 1 or update_env = 0), unit cells 2-4, both engines x mixers, <H>/site before and after the canonical_form call of post_run_cleanup.  distinct = distinct (model, L, engine, initial state, options).')
